@@ -1,5 +1,5 @@
 import Pds.Generated.Kernels.QfOps
-import Pds.Model.Quotient
+import Pds.Proofs.KernelTie.QfViews
 /-!
 Tie by translation, flow mode with fuel loops: `QuotientFilter::scan` — the walk back to the cluster start
 (`while self.is_shifted[b]`), the walk forward over runs and occupied buckets (`while b != quotient { loop … loop … }`),
@@ -13,21 +13,6 @@ namespace Pds.KernelTie
 open Pds Pds.Generated.Kernels Pds.Quotient
 
 variable {N : Nat}
-
-def occL (t : St N) : List Bool := List.ofFn fun i : Fin N => (t.get i).occ
-def contL (t : St N) : List Bool := List.ofFn fun i : Fin N => (t.get i).cont
-def shiftL (t : St N) : List Bool := List.ofFn fun i : Fin N => (t.get i).shift
-def remL (t : St N) : List Nat := List.ofFn fun i : Fin N => (t.get i).rem
-
-@[simp] theorem occL_len (t : St N) : (occL t).length = N := by simp [occL]
-@[simp] theorem occL_get (t : St N) (p : Fin N) : (occL t)[p.val]? = some (t.get p).occ := by
-  simp [occL, List.getElem?_ofFn, p.isLt]
-@[simp] theorem contL_get (t : St N) (p : Fin N) : (contL t)[p.val]? = some (t.get p).cont := by
-  simp [contL, List.getElem?_ofFn, p.isLt]
-@[simp] theorem shiftL_get (t : St N) (p : Fin N) : (shiftL t)[p.val]? = some (t.get p).shift := by
-  simp [shiftL, List.getElem?_ofFn, p.isLt]
-@[simp] theorem remL_get (t : St N) (p : Fin N) : (remL t)[p.val]? = some (t.get p).rem := by
-  simp [remL, List.getElem?_ofFn, p.isLt]
 
 theorem ringIncr_eq (p : Fin N) : KOps.ringIncr N p.val = (incr p).val := by
   unfold KOps.ringIncr incr
